@@ -44,12 +44,28 @@ def _field(args, name):
     return None
 
 
-def _norm_phys(s):
-    """a connection cut inside compressed data: what the codec reports is not modelled"""
-    parts = s.split(";")
-    if len(parts) == 3 and parts[1] in ("eof", "fail"):
-        parts[1] = "dead"
-    return parts
+def _split5(s):
+    """<msgs>;<error of the last ReadMessage>;<Conn.offset after Close>;<Batch.Close result>;<connection closed 0/1>"""
+    parts = (s or "").split(";")
+    return parts if len(parts) == 5 else None
+
+
+def _msgs(s):
+    return [] if s == "." else s.split(",")
+
+
+# A connection cut inside the announced message set of a response that holds compressed data.
+# The model's decompression is an oracle: it yields the plain bytes of a WHOLE compressed payload
+# and fails (I/O error) as soon as one byte of the payload is missing.  A real codec reading a
+# truncated payload may hand out a prefix of the plain bytes and end WITHOUT an error (nothing of
+# the payload received: every codec; a xerial / lz4 block boundary; the last 8 bytes of an lz4
+# frame).  message_reader.go therefore treats "the codec ended before the announced payload size
+# was consumed" as io.ErrUnexpectedEOF (readMessageV1 and readMessageV2), and with that the real
+# code is all-or-nothing exactly like the model.  NOTHING may differ between the two on these
+# cases: the delivered messages, the class of the last ReadMessage error, Conn.offset after
+# Close, Batch.Close's result and whether the library closed the connection are all compared
+# exactly (there was a relaxation here — longer delivered prefix, eof vs fail — until the sweep
+# below showed what it hid: Conn.offset passing records that never arrived).
 
 
 def classify_l1(c, model, prop):
@@ -59,27 +75,36 @@ def classify_l1(c, model, prop):
     out = []
     if go.startswith("HANG"):
         return [dict(layer="property", what="Conn.ReadBatch / Batch.ReadMessage / Batch.Close did not return (loop without progress)", input=c)]
+    physcut = "physcut" in feats
+    g5 = _split5(go)
     if go != model:
-        relaxed = False
-        if "physcut" in feats and any(f.startswith("codec") for f in feats) and model is not None:
-            g, m = _norm_phys(go), _norm_phys(model)
-            if len(g) == 3 and len(m) == 3 and g[1] == m[1] and (g[0] == m[0] or g[0].startswith(m[0].rstrip(".")) or m[0] == "."):
-                relaxed = True
-        if not relaxed:
-            if prop in ("ok", "REGRESS", "na"):
-                out.append(dict(layer="correspondence", what="byte level: model and Conn/Batch differ although the real code's result meets the fetch predicate", input=None))
-            else:
-                out.append(dict(layer="property", what="byte level: Conn.ReadBatch result differs from the model and breaks the fetch predicate", input=c))
-    if "unordered-formats" in feats or "cut<first" in feats:
-        return out       # outside the broker specification: compared with the model only
-    if go.startswith("HANG"):
-        return [dict(layer="property", what="Conn.ReadBatch / Batch.ReadMessage / Batch.Close did not return (loop without progress)", input=c)]
+        if prop == "OFFSET-PASSES":
+            pass        # reported once, below, as the property failure it is
+        elif prop in ("ok", "REGRESS", "na"):
+            out.append(dict(layer="correspondence", what="byte level: model and Conn/Batch differ although the real code's result meets the fetch predicate", input=None))
+        else:
+            out.append(dict(layer="property", what="byte level: Conn.ReadBatch result differs from the model and breaks the fetch predicate", input=c))
     if go == "panic":
         out.append(dict(layer="property", what="Conn.ReadBatch / Batch.ReadMessage panicked", input=c))
-    elif prop == "VIOLATED":
-        out.append(dict(layer="property", what="one fetch: delivered messages are not exactly the stored records in [fetch offset, Conn.offset after Close)", input=c))
+        return out
+    # a connection cut inside the announced message set: reported by Close, connection closed — on every such case
+    if physcut and g5 and (g5[3] == "nil" or g5[4] != "1"):
+        out.append(dict(layer="property", what="the connection was cut inside the fetch response but Batch.Close returned nil / the connection was kept: "
+                                               "a cut response is presented as a batch read to its end", input=c))
+        return out
+    if "unordered-formats" in feats or "cut<first" in feats:
+        return out       # outside the broker specification: compared with the model only
+    if prop == "VIOLATED":
+        out.append(dict(layer="property", what="one fetch: delivered messages are not exactly the stored records in [fetch offset, Conn.offset after Close) "
+                                               "(Conn.offset passes a record that was not delivered, or a record is missing, duplicated or altered)", input=c))
+    elif prop == "OFFSET-PASSES":
+        out.append(dict(layer="property", key="C02-conn-offset-passes-undelivered-after-cut",
+                        what="connection cut inside a compressed payload where the codec's reader ends silently: the records received so far are delivered, "
+                             "Batch.Close fails and the connection is closed, but Batch.Offset / Conn.Offset is past records of the batch that never arrived", input=c))
     elif prop == "REGRESS":
         out.append(dict(layer="property", what="Conn.offset after Batch.Close is below the offset the fetch was issued at", input=c))
+    elif prop == "UNREPORTED-CUT":
+        out.append(dict(layer="property", what="the connection was cut inside the fetch response but Batch.Close returned nil / the connection was kept", input=c))
     return out
 
 
@@ -117,12 +142,10 @@ def classify_e2e(c, model):
     return out
 
 
-def correspondence(ctx):
+def _run_harness(ctx, args, timeout=3000):
     gobin = L.go_build("c02")
     model = L.ocaml_build("c02")
-    n = ctx.scale(60, 1500)
-    ne = ctx.scale(30, 400)
-    rc, out, err, dt = L.sh([gobin, "-seed", str(ctx.seed), "-n", str(n), "-e2e", str(ne)], timeout=3000)
+    rc, out, err, dt = L.sh([gobin, "-seed", str(ctx.seed)] + args, timeout=timeout)
     if rc == 4:
         # three fetch decodes did not return: the cases emitted so far (the hung ones have result HANG) are judged below
         ctx.notes.append("harness stopped after three hung fetch decodes: " + err.strip()[-300:])
@@ -134,8 +157,11 @@ def correspondence(ctx):
         cases.append(c)
     text = "\n".join(c["id"] + " " + c["op"] + " " + c["args"] + " | " + c["go"] + " | " + c["feats"] for c in cases) + "\n"
     res = L.run_model(model, text)
+    return cases, res
+
+
+def _judge(cases, res):
     failures, seen_keys = [], {}
-    nbad = 0
     for c in cases:
         m = res.get(c["id"])
         if c["op"] == "l1":
@@ -156,18 +182,48 @@ def correspondence(ctx):
                 f["input"] = dict(case=c["op"] + " " + c["args"], go=c["go"], model=m, feats=c["feats"])
             f["_k"] = k
             failures.append(f)
-            nbad += 1
     for f in failures:
         f["what"] += " [%d case(s)]" % seen_keys[f.pop("_k")]
+    return failures
+
+
+SWEEP_RULE = ("compressed-payload cut sweep: v2 batches of 6 records for each codec (gzip, snappy, lz4, zstd), the payload in one block and in two "
+              "(codec writer flushed after 3 records: two xerial blocks, two lz4 blocks, gzip/zstd flush point), as the only batch (fetch offset at its base and inside it), "
+              "as the last batch after an uncompressed one and as a middle batch; the scripted connection ends at EVERY byte position of the batch "
+              "(61 header bytes + compressed payload) while the announced message set is the whole response; on every case: result compared with the model "
+              "(exactly: messages, last error class, Conn.offset, Close result, connection closed), Batch.Close must fail, the connection "
+              "must be closed, and the delivered messages must be exactly the stored records in [fetch offset, Conn.offset after Close)")
+
+
+def correspondence(ctx):
+    n = ctx.scale(60, 1500)
+    ne = ctx.scale(30, 400)
+    cases, res = _run_harness(ctx, ["-n", str(n), "-e2e", str(ne)])
+    failures = _judge(cases, res)
     ev, dn, hist = L.coverage_counts(cases, trivial_feats=("",))
     return dict(evaluations=ev, distinct_nontrivial=dn, hist=hist,
                 rule="one PRNG (VERIF_SEED): layouts of 1..50 records in formats 0/1/2 (v0/v1 before v2; 1/8 unordered for model fidelity only), "
                      "codecs none/gzip/snappy/lz4/zstd, compaction holes (head, inner, tail), retained empty batches; fetch offset anywhere in the layout; "
                      "the encoded response cut at every byte (<= 260 bytes) or 16 sampled positions, physically cut connections, passed deadlines, hwm = offset; "
+                     "every byte-level result includes Batch.Close's result and whether the library closed the connection; " + SWEEP_RULE + "; "
                      "fetch v2/v5/v10; end to end: real kafka.Reader on harness/fetchfake with scripted cuts, NotLeaderForPartition, OffsetOutOfRange, "
                      "RequestTimedOut, disconnects, leader moves, re-packed layouts, SetOffset; every case is non-trivial (distinct by hash of op+args)",
                 samples=[(c["op"] + " " + c["args"])[:300] + " | " + c["go"][:100] for c in cases[:2] + cases[len(cases)//2:len(cases)//2+2] + cases[-2:]],
                 failures=failures)
+
+
+def compressed_cut_cases(ctx):
+    """The compressed-payload cut sweep only (Conn/Batch half of C17 for compressed batches), same
+    dict shape as checks/c11.py conn_cut_cases."""
+    cases, res = _run_harness(ctx, ["-only", "sweep"], timeout=900)
+    failures = _judge(cases, res)
+    # C02's own clause (Conn.offset never passes an undelivered record) is judged by C02; for C17 the cut IS reported in those cases
+    notes = ["C02 clause not judged here: " + f["what"][:200] for f in failures if f.get("key") == "C02-conn-offset-passes-undelivered-after-cut"]
+    failures = [f for f in failures if f.get("key") != "C02-conn-offset-passes-undelivered-after-cut"]
+    ev, dn, hist = L.coverage_counts(cases, trivial_feats=("",))
+    samples = [(c["op"] + " " + c["args"])[:260] + " | " + c["go"][:120] + " | " + c["feats"] for c in (cases[:2] + cases[len(cases)//2:len(cases)//2+2] + cases[-2:])]
+    return dict(evaluations=ev, distinct_nontrivial=dn, hist=hist, rule=SWEEP_RULE, samples=samples, failures=failures, notes=notes,
+                extra=dict(exhaustive=True, cut_cases=len(cases)))
 
 
 def search(ctx, violations):
